@@ -96,6 +96,78 @@ class _Subst(ast.NodeTransformer):
         return super().generic_visit(node)
 
 
+class _Simplify(ast.NodeTransformer):
+    """Evaluation of constructs whose outcome is fixed once names were
+    substituted: a literal mapping looked up with a constant key, a literal
+    sequence indexed by a constant, `f(*<literal tuple>)`, and the
+    application of a lambda to its arguments."""
+
+    def visit_Subscript(self, node):
+        self.generic_visit(node)
+        if not isinstance(getattr(node, "ctx", None), ast.Load):
+            return node
+        if isinstance(node.value, ast.Dict) and isinstance(
+                node.slice, ast.Constant) and all(
+                    isinstance(k, ast.Constant) for k in node.value.keys):
+            for k, v in zip(node.value.keys, node.value.values):
+                if k.value == node.slice.value and type(k.value) is type(
+                        node.slice.value):
+                    return v
+        if isinstance(node.value, (ast.Tuple, ast.List)) and isinstance(
+                node.slice, ast.Constant) and isinstance(
+                    node.slice.value, int) and not isinstance(
+                        node.slice.value, bool) and not any(
+                            isinstance(x, ast.Starred)
+                            for x in node.value.elts) and \
+                -len(node.value.elts) <= node.slice.value < len(
+                    node.value.elts):
+            return node.value.elts[node.slice.value]
+        return node
+
+    def visit_Call(self, node):
+        self.generic_visit(node)
+        # f(*<literal>)
+        if any(isinstance(a, ast.Starred) and isinstance(
+                a.value, (ast.Tuple, ast.List)) for a in node.args):
+            args = []
+            for a in node.args:
+                if isinstance(a, ast.Starred) and isinstance(
+                        a.value, (ast.Tuple, ast.List)):
+                    args.extend(a.value.elts)
+                else:
+                    args.append(a)
+            node.args = args
+        f = node.func
+        # {..}.get(const[, default])
+        if isinstance(f, ast.Attribute) and f.attr == "get" and isinstance(
+                f.value, ast.Dict) and 1 <= len(node.args) <= 2 and \
+                not node.keywords and isinstance(
+                    node.args[0], ast.Constant) and all(
+                        isinstance(k, ast.Constant) for k in f.value.keys):
+            for k, v in zip(f.value.keys, f.value.values):
+                if k.value == node.args[0].value and type(k.value) is type(
+                        node.args[0].value):
+                    return v
+            return node.args[1] if len(node.args) == 2 else \
+                ast.Constant(value=None)
+        # (lambda ...: E)(args)
+        if isinstance(f, ast.Lambda) and not node.keywords and not any(
+                isinstance(a, ast.Starred) for a in node.args):
+            a = f.args
+            if not (a.kwonlyargs or a.kwarg or a.defaults or a.posonlyargs):
+                names = [x.arg for x in a.args]
+                if a.vararg is None and len(names) == len(node.args):
+                    env = dict(zip(names, node.args))
+                elif a.vararg is not None and len(node.args) >= len(names):
+                    env = dict(zip(names, node.args))
+                    env[a.vararg.arg] = ast.Tuple(
+                        elts=list(node.args[len(names):]), ctx=ast.Load())
+                else:
+                    return node
+                return _Subst(env).visit(clone(f.body))
+        return node
+
+
 class _Stop(Exception):
     pass
 
@@ -234,6 +306,7 @@ class Explorer:
         e = clone(e)
         e = self._resolve_ifexp(e, p)
         out = _Subst(p.env).visit(e)
+        out = _Simplify().visit(out)
         return ast.fix_missing_locations(out)
 
     def _resolve_ifexp(self, e, p):
@@ -296,6 +369,8 @@ class Explorer:
 
 
 def _const_truth(e):
+    if isinstance(e, ast.Lambda):
+        return True
     try:
         v = ast.literal_eval(e)
     except Exception:
